@@ -667,12 +667,12 @@ def conditions(tier, seed):
     sparse = [NAMES.index(x) for x in ('where', 'where.mod', 'skipWhile', 'distinct.key')]
     bounded = [NAMES.index(x) for x in ('take', 'takeWhile', 'slice', 'first', 'any', 'indexOf', 'delete')]
     for s1 in sparse:
-        out.append({'name': 'sparse_bounded[%s]' % OPS[s1].name, 'func': 'h_pipe', 'timeout': 200 if quick else 600,
+        out.append({'name': 'sparse_bounded[%s]' % OPS[s1].name, 'func': 'h_pipe', 'timeout': 300 if quick else 900,
                     'param': {'s1': s1, 'depth': 2, 'mode': 'api', 'budget': budget, 'dmax': 3, 'imax': 2,
-                              'kmax': 3 if quick else 5, 's2set': bounded},
+                              'kmax': 2 if quick else 5, 's2set': bounded},
                     'bounds': '$s.%s.<op2>, op2 by symbolic selector among %s; k in 0..3 (beyond what op2 can deliver), '
                               'ints in 0..2, lambda constants in -1..%d; call API'
-                              % (OPS[s1].name, [NAMES[x] for x in bounded], 3 if quick else 5)})
+                              % (OPS[s1].name, [NAMES[x] for x in bounded], 2 if quick else 5)})
     # 2-operator pipelines: first fixed, second by symbolic selector (thirds of the table)
     firsts = [n for n, o in enumerate(OPS) if not o.terminal]
     thirds = [LATER[t::3] for t in range(3)]
